@@ -63,7 +63,7 @@ class RunContext:
         s = rec.season
         if s < 0 or s >= len(self.planting):
             return False
-        if not (self.planting[s] <= rec.date <= self.harvest[s]):
+        if not (self.planting[s] <= rec.date < self.harvest[s]):
             return False
         f = rec.flags0
         return (f["crop_mature"] is False) and (f["crop_dead"] is False)
@@ -293,7 +293,10 @@ def mon_c05(ctx, rec):
     ins = ctx.in_season(rec)
     if not np.isfinite(np.delete(g, [])).all():
         bad = [c for c in GI if not math.isfinite(g[GI[c]])]
-        out.append(("C05:non-finite:" + ",".join(bad), f"day t={rec.t}: non-finite crop outputs {bad}"))
+        tag = ""
+        if bad == ["FreshYield"] and not float(getattr(ctx.crop(rec), "YldWC", 0) or 0):
+            tag = ":crop-without-YldWC"
+        out.append(("C05:non-finite:" + ",".join(bad) + tag, f"day t={rec.t}: non-finite crop outputs {bad}"))
     st = ctx.state.setdefault("c05", {})
     if not ins:
         for col in ("canopy_cover", "biomass", "DryYield", "FreshYield", "dap"):
@@ -395,3 +398,221 @@ def probes_of(ctx, rec, probes):
         inc("air_dry_compartment_day")
     if ctx.season_reset_day(rec):
         inc("season_reset")
+
+
+# ---------------------------------------------------------------------------------------------
+# C06 (per-day part + history part)
+
+def _ulp_eq(a, b):
+    if a == b:
+        return True
+    if not (math.isfinite(a) and math.isfinite(b)):
+        return (a != a and b != b) or a == b
+    return abs(a - b) <= 4e-16 * max(abs(a), abs(b))
+
+
+def mon_c06(ctx, rec):
+    out = []
+    st = ctx.state.setdefault("c06", {"season": None, "B": 0.0, "irr": {}, "harvest": {}, "started": set()})
+    ins = ctx.in_season(rec)
+    if not ins:
+        st["season"] = None
+        return out
+    k = rec.season
+    st["started"].add(k)
+    crop = ctx.crop(rec)
+    WP, WPy, fCO2, YldWC = float(crop.WP), float(crop.WPy), float(crop.fCO2), float(crop.YldWC or 0)
+    B, Bns = gr(rec, "biomass"), gr(rec, "biomass_ns")
+    prevB = st["B"] if st["season"] == k else 0.0
+    dB = B - prevB
+    et0 = rec.wx[3]
+    base = WP * fCO2 * fx(rec, "Tr") / et0
+    f_lo, f_hi = min(1.0, WPy / 100.0), max(1.0, WPy / 100.0)
+    lo, hi = min(f_lo * base, f_hi * base), max(f_lo * base, f_hi * base)
+    tol = 1e-9 * max(1.0, abs(B), abs(base))
+    if not (lo - tol <= dB <= hi + tol):
+        out.append(("C06:biomass-gain", f"day t={rec.t} dap={gr(rec,'dap')}: biomass gain {dB!r} outside [{lo!r}, {hi!r}] = [min(1,WPy/100), max(1,WPy/100)] x WP*fCO2*Tr/ET0 (WP={WP}, WPy={WPy}, fCO2={fCO2!r}, Tr={fx(rec,'Tr')!r}, ET0={et0})"))
+    dy, fy, yp = gr(rec, "DryYield"), gr(rec, "FreshYield"), gr(rec, "YieldPot")
+    if not _ulp_eq(dy, (B / 100.0) * gr(rec, "harvest_index_adj")):
+        out.append(("C06:dry-yield", f"day t={rec.t}: DryYield={dy!r} != B/100*HI_adj={(B / 100.0) * gr(rec, 'harvest_index_adj')!r}"))
+    if YldWC > 0 and not _ulp_eq(fy, dy / (YldWC / 100.0)):
+        out.append(("C06:fresh-yield", f"day t={rec.t}: FreshYield={fy!r} != DryYield/(YldWC/100)={dy / (YldWC / 100.0)!r}"))
+    if not _ulp_eq(yp, (Bns / 100.0) * gr(rec, "harvest_index")):
+        out.append(("C06:potential-yield", f"day t={rec.t}: YieldPot={yp!r} != B_ns/100*HI={(Bns / 100.0) * gr(rec, 'harvest_index')!r}"))
+    st["season"], st["B"] = k, B
+    st["irr"][k] = st["irr"].get(k, 0.0) + fx(rec, "IrrDay")
+    f1 = rec.flags1
+    ended = bool(f1["crop_mature"]) or bool(f1["crop_dead"]) or (rec.date + pd.Timedelta(days=1) == ctx.harvest[k])
+    if ended and k not in st["harvest"]:
+        st["harvest"][k] = {"t": rec.t, "date": (rec.date + pd.Timedelta(days=1)).strftime("%Y-%m-%d"), "dry": dy, "fresh": fy, "pot": yp,
+                            "irr": st["irr"][k]}
+    return out
+
+
+def final_c06(ctx, tables):
+    """history check of the seasonal summary against what the world observed day by day"""
+    out = []
+    st = ctx.state.get("c06") or {"harvest": {}, "started": set()}
+    rows = tables["final"] or []
+    exp = st["harvest"]
+    seen = [r[1] for r in rows]  # Season column
+    if seen != sorted(exp):
+        out.append(("C06:summary-rows", f"summary has rows for seasons {seen}, seasons that reached harvest: {sorted(exp)} (seasons started: {sorted(st['started'])})"))
+        return out
+    for r in rows:
+        idx, season, cname, hdate, hstep, dry, fresh, pot, irr = r
+        e = exp[season]
+        if idx != season:
+            out.append(("C06:summary-index", f"summary row index {idx} != season {season}"))
+        if hstep != e["t"]:
+            out.append(("C06:summary-step", f"season {season}: harvest step {hstep} != step of the harvest day {e['t']}"))
+        if hdate != e["date"]:
+            out.append(("C06:summary-date", f"season {season}: harvest date {hdate} != day after the harvest step {e['date']}"))
+        for name, a, b in (("dry", dry, e["dry"]), ("fresh", fresh, e["fresh"]), ("potential", pot, e["pot"])):
+            if not (a == b or (a != a and b != b)):
+                out.append((f"C06:summary-{name}-yield", f"season {season}: summary {name} yield {a!r} != daily value on the harvest day {b!r}"))
+        if not (abs(irr - e["irr"]) <= 1e-9 * max(1.0, abs(e["irr"]))):
+            out.append(("C06:summary-irrigation", f"season {season}: seasonal irrigation {irr!r} != sum of daily IrrDay {e['irr']!r}"))
+    return out
+
+
+# ---------------------------------------------------------------------------------------------
+# C07 (recorded per day, decided over the history)
+
+def own_gdd(method, tupp, tbase, tmax, tmin):
+    """independent implementation of the three documented degree-day methods"""
+    if method == 1:
+        tm = (tmax + tmin) / 2
+        tm = min(max(tm, tbase), tupp)
+    elif method == 2:
+        a = min(max(tmax, tbase), tupp)
+        b = min(max(tmin, tbase), tupp)
+        tm = (a + b) / 2
+    else:
+        a = min(max(tmax, tbase), tupp)
+        b = min(tmin, tupp)
+        tm = max((a + b) / 2, tbase)
+    return tm - tbase
+
+
+def mon_c07(ctx, rec):
+    days = ctx.state.setdefault("c07_days", [])
+    crop = ctx.crop(rec) if rec.season >= 0 else None
+    days.append({
+        "t": rec.t, "date": rec.date, "season": rec.season, "dap": gr(rec, "dap"),
+        "rows_t": (float(rec.flux[0]), float(rec.growth[0]), float(rec.storage[0])),
+        "rows_dap": (float(rec.flux[FI["dap"]]), float(rec.storage[2])),
+        "mature": bool(rec.flags1["crop_mature"]), "dead": bool(rec.flags1["crop_dead"]),
+        "tmin": rec.wx[0], "tmax": rec.wx[1],
+        "cal": (int(crop.CalendarType), float(crop.Maturity), int(crop.GDDmethod), float(crop.Tupp), float(crop.Tbase)) if crop is not None else None,
+    })
+    return []
+
+
+def final_c07(ctx, node, spec):
+    import datetime as _dt
+    from .gen import planting_dates
+    from .spec import parse_date
+    out = []
+
+    def V(sig, msg):
+        if not any(s == sig for s, _ in out):
+            out.append((sig, msg))
+
+    days = ctx.state.get("c07_days", [])
+    hv = node.finish_checks
+    if len(hv) != len(days):
+        V("C07:harness", f"harness: {len(days)} days but {len(hv)} termination checks")
+        return out
+    start, end = parse_date(spec["start"]), parse_date(spec["end"])
+    off = bool(spec.get("off_season"))
+    # --- scheduled seasons (independent date arithmetic): planting dates with start <= P < end
+    ref_P = [p for p in planting_dates(spec) if p < end]
+    code_P = [pd.Timestamp(x).date() for x in ctx.planting]
+    # the statement fixes where seasons begin (consecutive years, from the first planting date on or
+    # after the start); how many seasons are scheduled before the end date is the model's choice
+    # ("the last scheduled season"), so the model's list must be a prefix of the reference list
+    all_P = planting_dates(spec)
+    if code_P != all_P[:len(code_P)] or (len(code_P) == 0):
+        V("C07:scheduled-plantings", f"model schedules plantings {[str(x) for x in code_P]}; window {start}..{end} with planting {spec['crop']['planting_date']}: consecutive planting dates from the first on/after the start are {[str(x) for x in all_P]}")
+        return out
+    ref_P = code_P
+    nseas = len(ref_P)
+    if not days:
+        V("C07:no-days", "no day was simulated")
+        return out
+    if days[0]["date"].date() != start:
+        V("C07:first-day", f"first simulated day {days[0]['date'].date()} != start {start}")
+    harvested = {}      # season -> index of harvest day
+    gsum = {}
+    prev = None
+    for i, d in enumerate(days):
+        date = d["date"].date()
+        if d["t"] != (date - start).days or any(x != d["t"] for x in d["rows_t"]):
+            V("C07:row-index", f"day {date}: clock step {d['t']}, table rows carry {d['rows_t']}, expected {(date - start).days}")
+        if prev is not None:
+            pdte = prev["date"].date()
+            if date <= pdte:
+                V("C07:order", f"day {date} simulated after {pdte}")
+            ph = hv[i - 1]["harvest_flag"]
+            pk = prev["season"]
+            if ph and not off and pk >= 0:
+                if pk + 1 < nseas:
+                    if date != ref_P[pk + 1]:
+                        V("C07:jump", f"after harvest on {pdte} (season {pk}) the run continues on {date}, expected next planting date {ref_P[pk + 1]}")
+                else:
+                    V("C07:continues-after-last-harvest", f"run continues on {date} after the last scheduled season was harvested on {pdte}")
+            else:
+                if date != pdte + _dt.timedelta(days=1):
+                    V("C07:skip", f"day after {pdte} is {date} (no harvest with skipped off-season in between)")
+                if ph and pk == nseas - 1:
+                    V("C07:continues-after-last-harvest", f"run continues on {date} after the last scheduled season was harvested on {pdte}")
+        # --- which season (reference) is this day in?
+        k = None
+        for j in range(nseas):
+            if ref_P[j] <= date and (j + 1 >= nseas or date < ref_P[j + 1]):
+                k = j
+        in_ref = k is not None and k not in harvested and date < pd.Timestamp(ctx.harvest[k]).date()
+        # the code's season counter must name the same season from its planting date on
+        if k is not None and d["season"] != k:
+            V("C07:season-counter", f"day {date}: season counter {d['season']}, reference season {k}")
+        if k is None and d["season"] != -1:
+            V("C07:season-counter", f"day {date}: season counter {d['season']} before the first planting date")
+        dap_ref = (date - ref_P[k]).days + 1 if in_ref else 0
+        if d["dap"] != dap_ref or any(x != dap_ref for x in d["rows_dap"]):
+            V("C07:dap", f"day {date}: dap column {d['dap']} (other tables {d['rows_dap']}), reference {dap_ref} (season {k})")
+        h = hv[i]["harvest_flag"]
+        if in_ref:
+            cal, mat, gm, tu, tb = d["cal"]
+            if cal == 1:
+                mature_ref, undec = dap_ref >= mat, False
+            else:
+                g = gsum.get(k, 0.0) + own_gdd(gm, tu, tb, d["tmax"], d["tmin"])
+                gsum[k] = g
+                mature_ref, undec = g >= mat, abs(g - mat) <= 1e-6
+            latest = date + _dt.timedelta(days=1) == pd.Timestamp(ctx.harvest[k]).date()
+            if h:
+                harvested[k] = i
+                if not mature_ref and not undec and not d["dead"] and not latest:
+                    V("C07:early-harvest", f"season {k} ends on {date} (dap {dap_ref}) before maturity, crop not dead, latest harvest date {pd.Timestamp(ctx.harvest[k]).date()} not reached")
+            else:
+                if mature_ref and not undec:
+                    V("C07:late-harvest", f"season {k}: maturity reached on {date} (dap {dap_ref}) but the season did not end")
+                if latest:
+                    V("C07:late-harvest", f"season {k}: latest harvest date reached on {date} but the season did not end")
+                if d["dead"]:
+                    V("C07:late-harvest", f"season {k}: crop dead on {date} but the season did not end")
+        elif h and (k is None or k not in harvested):
+            V("C07:harvest-outside-season", f"harvest flagged on {date} outside any season")
+        prev = d
+    # --- termination
+    last = days[-1]
+    ldate = last["date"].date()
+    fin = bool(node.finished)
+    ended_by_harvest = hv[-1]["harvest_flag"] and last["season"] == nseas - 1
+    ended_by_date = ldate + _dt.timedelta(days=1) == end
+    if not fin:
+        V("C07:not-finished", "run stopped without reporting finished")
+    elif not (ended_by_harvest or ended_by_date):
+        V("C07:early-termination", f"run terminated after {ldate}: not the last scheduled harvest and not the day before the end date {end}")
+    return out
